@@ -1,9 +1,11 @@
 use crate::engine::PropFn;
 
+pub mod c17;
 pub mod c18;
 
 pub fn lookup(id: &str) -> Option<PropFn> {
     Some(match id {
+        "C17" => c17::run,
         "C18" => c18::run,
         _ => return None,
     })
